@@ -75,6 +75,12 @@ func groupingTie(e *exprCase, tms int64) string {
 	if err1 != nil || err2 != nil {
 		return "" // the black-box oracle judges expressions the transpiler rejects
 	}
+	if strings.HasSuffix(a, "dims=[]") {
+		// `without ()` / `by ()`: the operand's statement carries no label dimension; the transpiler copies the Without
+		// flag together with the dimensions (only when there are any), and the filter statement, which has no aggregate
+		// call, passes the chunk tags through: nothing to tie (black-box oracle only)
+		return ""
+	}
 	if a != b {
 		return fmt.Sprintf("operand %q transpiles with grouping {%s} but %q with {%s}", vec, a, e.Expr, b)
 	}
